@@ -41,6 +41,8 @@ ASSUMPTIONS = [
     "and one virtual hour never completes",
     "scheduler fairness and tokio RwLock wake-ups (a waiter is eventually granted a free lock) are outside the model",
     "guards held on an endpoint whose connection was cut stop counting for exclusion at the cut (the owner cannot know better)",
+    "scripts are a function of VERIF_SEED; the order of events of different endpoints inside one settle (and burst interleavings over "
+    "real connections) also depends on tokio's randomised select! in chmux, so trace hashes vary slightly between runs; verdicts do not",
 ]
 LEVEL_TEXT = ("Lean 4 theorems over M_rwlock for all label lists (all interleavings of reads/writes/commits/drops on any number of "
               "lock clones and endpoints, all task and delivery schedules, endpoint loss): exclusion (while a writer has the value no "
